@@ -60,7 +60,7 @@ def _cases(draw):
             rels.append(r)
             if draw(st.integers(0, 3)) == 0:
                 rels.append(dict(r))
-        ss = {'id': f'd-s{i}', 'ili': f'i{i}' if i % 2 else '', 'partOfSpeech': pos,
+        ss = {'id': f'd-s{i}', 'ili': f'i{i}' if i % 4 else '', 'partOfSpeech': pos,
               'meta': None, 'definitions': [{'text': f'def {i}', 'meta': None}]}
         if rels:
             ss['relations'] = rels
@@ -109,8 +109,11 @@ def _cases(draw):
     # a second lexicon without relations of its own that shares ILIs with the first:
     # its taxonomy exists only through expand lexicons, so results depend on the
     # Wordnet configuration - and must not depend on which configuration was used before
+    # it has the deepest concepts and few of the others, so that several of its inferred
+    # hypernyms are placeholders (which all share one id and one row id)
     tsyn = [{'id': f't-s{i}', 'ili': ss['ili'], 'partOfSpeech': ss['partOfSpeech'],
-             'meta': None} for i, ss in enumerate(synsets) if ss['ili'] and i % 3 != 2]
+             'meta': None} for i, ss in enumerate(synsets)
+            if ss['ili'] and (i >= n - 2 or draw(st.integers(0, 2)) == 0)]
     tent = [{'id': f't-e{i}', 'meta': None,
              'lemma': {'writtenForm': f'tw{i}', 'partOfSpeech': ss['partOfSpeech']},
              'senses': [{'id': f't-e{i}-a', 'synset': ss['id'], 'meta': None}]}
